@@ -232,8 +232,7 @@ def make_spy_classes(spy):
                 spy.rec('keys', self)
                 return base.keys(self)
             def items(self):
-                spy.rec('items', self)
-                return base.items(self)
+                return SpyItems(self)
             ns.update(values=values, keys=keys, items=items)
         if base in (list, collections.deque, dict, set, collections.defaultdict, collections.OrderedDict,
                     collections.Counter, UserList):
@@ -245,6 +244,31 @@ def make_spy_classes(spy):
                         return getattr(base, _m)(self, *a, **k)
                     ns[m] = f
         return type('Spy_' + name, (base,), ns)
+
+    class _ItemIt:
+        def __init__(self, owner, it):
+            self._o, self._it = owner, it
+
+        def __iter__(self):
+            return self
+
+        def __next__(self):
+            x = next(self._it)
+            spy.rec('item_read', self._o)
+            return x
+
+    class SpyItems:
+        """x.items() of a spy mapping: every pair handed out is logged"""
+        def __init__(self, owner):
+            self._o = owner
+
+        def __len__(self):
+            spy.rec('len', self._o)
+            return len(list(dict.keys(self._o))) if isinstance(self._o, dict) else len(self._o._d)
+
+        def __iter__(self):
+            src = dict.items(self._o) if isinstance(self._o, dict) else self._o._d.items()
+            return _ItemIt(self._o, iter(list(src)))
 
     class SpyValues:
         def __init__(self, owner):
